@@ -177,27 +177,205 @@ def data_bytes(text):
     return text[text.index("DATA;") + 5:]
 
 
-# ------------------------------------------------------------------ literal spellings
+# ------------------------------------------------------------------ literal spellings, driven by the token grammar
+# (lean/StepModel/P21/Grammar.lean = doc/iso-10303-21--2002.bnf): every production and every boundary between two
+# productions is hit by construction, the random choices only pick which combination goes into which file.
+
+def gen_integer(rng):
+    """integer = [ sign ] digit { digit } ; within `long`, not the in-band null LONG_MAX"""
+    sign = rng.choice(["", "", "+", "-"])
+    shape = rng.randrange(6)
+    if shape == 0:
+        ds = rng.choice("0123456789")
+    elif shape == 1:
+        ds = "0" * rng.randint(1, 3) + str(rng.randrange(1000))            # leading zeros
+    elif shape == 2:
+        ds = str(rng.choice([2147483647, 2147483648, 4294967296, 9223372036854775806, 999999999999999]))
+    elif shape == 3 and sign == "-":
+        ds = str(rng.choice([2147483648, 9223372036854775807, 9223372036854775808 - 1]))
+    else:
+        ds = str(rng.randrange(10 ** rng.randint(1, 12)))
+    return sign + ds
+
+
+def gen_real(rng):
+    """real = [ sign ] digit { digit } '.' { digit } [ 'E' [ sign ] digit { digit } ]
+    grid: sign x number of significant digits 1..15 x where the point stands x fixed / exponent notation x exponent
+    magnitude (0, 1, 5, 7, 14..16, 20, 100, 300) x exponent sign and spelling.  The library's in-band null (FLT_MIN) and
+    values within 1e-14 of DBL_MAX are outside the property and never produced."""
+    sign = rng.choice(["", "", "+", "-", "-"])
+    nd = rng.choice([1, 1, 1, 2, 3, 7, 14, 15])
+    digits = rng.choice("123456789") + "".join(rng.choice("0123456789") for _ in range(nd - 1))
+    if nd > 1 and rng.random() < 0.3:
+        digits = digits[:-1] + rng.choice("123456789")      # last digit significant
+    k = rng.randint(1, nd) if rng.random() < 0.8 else 0      # digits before the point (0: a leading `0.` form)
+    if k == 0:
+        mant = "0." + "0" * rng.choice([0, 0, 1, 4]) + digits
+    else:
+        mant = digits[:k] + "." + digits[k:]
+    if rng.random() < 0.15:
+        mant = "0" * rng.randint(1, 2) + mant                # leading zeros
+    if rng.random() < 0.15 and "." in mant and not mant.endswith("."):
+        mant = mant + "0" * rng.randint(1, 2)                # trailing zeros
+    if rng.random() < 0.55:
+        mag = rng.choice([0, 1, 4, 5, 6, 7, 14, 15, 16, 17, 20, 99, 100, 250])
+        esign = rng.choice(["", "+", "-", "-"])
+        if esign == "-":
+            mag = min(mag, 250)
+        width = rng.choice([0, 0, 2, 3])
+        e = "E" + esign + (str(mag).zfill(width) if width else str(mag))
+    else:
+        e = ""
+    if rng.random() < 0.06:
+        return rng.choice(["0.", "-0.", "+0.0", "0.E0", "0.0E-5"])
+    return sign + mant + e
+
+
+BS = chr(92)
+STR_PLAIN = 'abcXYZ 0189_-+*/=<>!"#$%&().,:;?@[]^`{|}~'      # non_q_char
+
+
+def _str_item(rng):
+    """one item of the string body: non_q_char | apostrophe apostrophe | reverse_solidus reverse_solidus | control_directive"""
+    r = rng.randrange(12)
+    if r < 4:
+        return rng.choice(STR_PLAIN)
+    if r == 4:
+        return "''"
+    if r == 5:
+        return BS + BS
+    if r == 6:      # page: \S\ character ; `character` includes the apostrophe and the reverse solidus
+        return BS + "S" + BS + rng.choice(["'", "'", BS, "D", "|", " ", "7", "S"])
+    if r == 7:      # alphabet
+        return BS + "P" + rng.choice("ABI") + BS
+    if r == 8:      # arbitrary
+        return BS + "X" + BS + rng.choice(["27", "5C", "A7", "E9", "00", "FF", "0A"])
+    if r == 9:      # extended2
+        return (BS + "X2" + BS + "".join(rng.choice(["03B1", "0027", "005C", "20AC"]) for _ in range(rng.randint(1, 3)))
+                + BS + "X0" + BS)
+    if r == 10:     # extended4
+        return (BS + "X4" + BS + "".join(rng.choice(["0001F600", "00000027"]) for _ in range(rng.randint(1, 2)))
+                + BS + "X0" + BS)
+    return rng.choice(["#12", "ENDSEC;", "/* x */", "$", "*", ",", ")", "(", ";", "=", ".T."])
+
+
+def gen_string(rng):
+    """string = apostrophe { non_q_char | 2 apostrophes | 2 reverse solidi | control_directive } apostrophe ; every item kind at the start, in the middle and at
+    the END of the body, and next to every other item kind (in particular a directive followed by the closing apostrophe)"""
+    n = rng.choice([0, 1, 1, 2, 2, 3, 5])
+    items = [_str_item(rng) for _ in range(n)]
+    return "'" + "".join(items) + "'"
+
+
+def gen_binary(rng):
+    """binary = '"' ( '0' | '1' | '2' | '3' ) { hex } '"'"""
+    return '"' + rng.choice("0123") + "".join(rng.choice("0123456789ABCDEF") for _ in range(rng.choice([0, 0, 1, 2, 7, 17]))) + '"'
+
+
 def gen_literal(rng, kind):
     """a literal of the Part 21 grammar for a simple kind, not necessarily in the writer's canonical spelling"""
     if kind in ("INTEGER", "DEF_INT"):
-        return rng.choice(["0", "+5", "-0", "007", "+123456789", "-2147483648", "9223372036854775806", "1", "-17"])
+        return gen_integer(rng)
     if kind in ("REAL", "DEF_REAL", "NUMBER"):
-        return rng.choice(["0.", "+1.5", "-2.25", "1.E5", "100000.", "1.0E+05", "6.02E23", "1.E-7", "-0.0", "123456789.012345",
-                           "1.7976931348623E308", "5.E-324"[:0] + "4.9E-300", "3.14159265358979", "00.5", "1.50"])
+        return gen_real(rng)
     if kind == "STRING":
-        return rng.choice(["'a'", "''", "'it''s'", "''''", "'x,y)'", "'#12'", "'$'", "'/* no comment */'", "'\\\\'",
-                           "'\\S\\D'", "'\\X2\\03B1\\X0\\'", "'a;b'", "'(('", "'end''''s'", "' lead'", "'trail '",
-                           "'\\X\\E9'", "'ENDSEC;'"])
+        return gen_string(rng)
     if kind == "BOOLEAN":
         return rng.choice([".T.", ".F."])
     if kind == "LOGICAL":
         return rng.choice([".T.", ".F.", ".U."])
     if kind == "BINARY":
-        return rng.choice(['"0"', '"1F"', '"3ABCDEF0123456789"', '"0FF"', '"23"'])
+        return gen_binary(rng)
     if kind == "ENUM":
         return rng.choice(G.ENUMS)
     raise ValueError(kind)
+
+
+def real_grid():
+    """every conforming REAL spelling class: sign x significant digits x position of the point x notation x exponent"""
+    out = []
+    for sign in ("", "+", "-"):
+        for digits in ("1", "5", "25", "123456789012345"):
+            for k in sorted({1, len(digits)}):
+                mant = digits[:k] + "." + digits[k:]
+                for e in ("", "E5", "E+20", "E-07", "E+15", "E-5", "E+250", "E-250"):
+                    out.append(sign + mant + e)
+    out += ["0.", "-0.", "0.E0", "0.25", "-0.25", "00.5", "1.50", "+0.0001", "-0.00001", "100000000000000.", "-1000000000000000."]
+    return out
+
+
+def string_grid():
+    """every item kind of the string grammar alone, at the start, at the end, and next to every other item kind"""
+    items = ["a", "''", BS + BS, BS + "S" + BS + "'", BS + "S" + BS + BS, BS + "S" + BS + "D", BS + "PA" + BS,
+             BS + "X" + BS + "27", BS + "X" + BS + "5C", BS + "X2" + BS + "0027" + BS + "X0" + BS,
+             BS + "X4" + BS + "00000027" + BS + "X0" + BS, ";", ")", "/*"]
+    out = ["''"]
+    for d in items:
+        out += ["'" + d + "'", "'x" + d + "'", "'" + d + "x'"]
+    for d1 in items:
+        for d2 in items:
+            out.append("'" + d1 + d2 + "'")
+    return out
+
+
+def integer_grid():
+    out = []
+    for sign in ("", "+", "-"):
+        for ds in ("0", "7", "007", "2147483647", "2147483648", "4294967296", "9223372036854775806"):
+            out.append(sign + ds)
+    return out + ["-9223372036854775807", "-9223372036854775808"]
+
+
+def grid_population(schema, start_id=1):
+    """a conforming population that carries every grid literal once: reals in t1.t1_r, integers and strings in
+    t0.t0_i / t0.t0_s, aggregates of them in en_e (when the schema has it)"""
+    t0, t1 = schema.targets[0].upper(), schema.targets[1].upper()
+    insts, i = [], start_id
+    for r in real_grid():
+        insts.append(G.Inst(i, [(t1, [("tok", r), ("null",)])]))
+        i += 1
+    ints = integer_grid()
+    for k, s in enumerate(string_grid()):
+        insts.append(G.Inst(i, [(t0, [("tok", ints[k % len(ints)]), ("null",), ("tok", s)])]))
+        i += 1
+    if "en_e" in schema.by_name:
+        rg, sg = real_grid(), string_grid()
+        for k in range(0, len(rg), 3):
+            insts.append(G.Inst(i, [("EN_E", [("tok", ".RED."), ("aggr", [("tok", ".BLUE."), ("tok", ".GREEN.")]), ("aggr", [("tok", ".F.")]),
+                                              ("null",), ("aggr", [("tok", x) for x in rg[k:k + 3]]),
+                                              ("aggr", [("tok", x) for x in sg[k:k + 3]])])]))
+            i += 1
+    return insts
+
+
+def near_miss_enum(rng, items, shape=None):
+    """an enumeration token that is NOT one of `items` but close to one: proper prefix, extension, one-letter edit,
+    deletion, two items glued, an item of another enumeration"""
+    items = [i.upper() for i in items]
+    for _ in range(50):
+        it = rng.choice(items)
+        r = rng.randrange(7) if shape is None else shape % 7
+        if shape is not None and len(it) == 1 and r in (0, 3, 4):
+            r = 1 + shape % 2           # one-letter items have no proper prefix / suffix
+        if r == 0 and len(it) > 1:
+            c = it[:rng.randint(1, len(it) - 1)]                      # proper prefix
+        elif r == 1:
+            c = it + rng.choice(["X", "S", "_1", "ISH", "0"])          # extension
+        elif r == 2:
+            k = rng.randrange(len(it))
+            c = it[:k] + rng.choice("ABCDEFGHIJKLMNOPQRSTUVWXYZ_") + it[k + 1:]   # one letter replaced
+        elif r == 3 and len(it) > 1:
+            k = rng.randrange(len(it))
+            c = it[:k] + it[k + 1:]                                   # one letter deleted
+        elif r == 4 and len(it) > 1:
+            c = it[1:]                                                # proper suffix
+        elif r == 5:
+            c = it + rng.choice(items)                                # two items glued
+        else:
+            c = rng.choice(["PURPLE", "T", "F", "U", "UNSET", "DASH", "X"])
+        if c and c not in items and (c[0].isalpha() or c[0] == "_"):
+            return "." + c + "."
+    return ".NO_SUCH_ITEM."
 
 
 def respell(rng, schema, insts, p=0.5):
@@ -234,7 +412,9 @@ def _respell_val(rng, kind, v, p):
 ABSTRACT_EXPRESS = ("ENTITY abs_e\n  ABSTRACT SUPERTYPE OF (ONEOF (abs_s));\n  abs_i : INTEGER;\nEND_ENTITY;\n\n"
                     "ENTITY abs_s\n  SUBTYPE OF (abs_e);\nEND_ENTITY;\n\n"
                     "ENTITY d_sup\n  SUPERTYPE OF (ONEOF (d_sub));\n  d_a : INTEGER;\n  d_b : REAL;\nEND_ENTITY;\n\n"
-                    "ENTITY d_sub\n  SUBTYPE OF (d_sup);\n  d_c : OPTIONAL STRING;\nDERIVE\n  SELF\\d_sup.d_a : INTEGER := 1;\nEND_ENTITY;\n\n")
+                    "ENTITY d_sub\n  SUBTYPE OF (d_sup);\n  d_c : OPTIONAL STRING;\nDERIVE\n  SELF\\d_sup.d_a : INTEGER := 1;\nEND_ENTITY;\n\n"
+                    "ENTITY en_e;\n  en_c : colour_t;\n  en_l : LIST [0:?] OF colour_t;\n  en_b : LIST [0:?] OF BOOLEAN;\n"
+                    "  en_g : OPTIONAL LIST [0:?] OF LOGICAL;\n  en_r : LIST [0:?] OF REAL;\n  en_s : LIST [0:?] OF STRING;\nEND_ENTITY;\n\n")
 
 
 class SchemaX(G.Schema):
@@ -244,7 +424,10 @@ class SchemaX(G.Schema):
         ents = list(base.entities) + [G.Entity("abs_e", None, [G.Attr("abs_i", "INTEGER", False)]),
                                       G.Entity("abs_s", "abs_e", []),
                                       G.Entity("d_sup", None, [G.Attr("d_a", "INTEGER", False), G.Attr("d_b", "REAL", False)]),
-                                      G.Entity("d_sub", "d_sup", [G.Attr("d_c", "STRING", True)])]
+                                      G.Entity("d_sub", "d_sup", [G.Attr("d_c", "STRING", True)]),
+                                      G.Entity("en_e", None, [G.Attr("en_c", "ENUM", False), G.Attr("en_l", "AGG_ENUM", False),
+                                                              G.Attr("en_b", "AGG_BOOL", False), G.Attr("en_g", "AGG_LOG", True),
+                                                              G.Attr("en_r", "AGG_REAL", False), G.Attr("en_s", "AGG_STR", False)])]
         G.Schema.__init__(self, base.name, ents, base.targets)
         self.abstract = ("abs_e",)
         self.derived = {"d_sub": {"d_a"}}
@@ -257,6 +440,23 @@ class SchemaX(G.Schema):
 
     def simple_instantiable(self):
         return [e.name for e in self.entities if e.name != "abs_e"]
+
+
+_orig_gen_value = G.gen_value
+
+
+def _gen_value(rng, attr, schema, pool):
+    k = attr.kind
+    if k == "AGG_ENUM":
+        return ("aggr", [("tok", rng.choice(G.ENUMS)) for _ in range(rng.randint(0, 3))])
+    if k == "AGG_BOOL":
+        return ("aggr", [("tok", rng.choice([".T.", ".F."])) for _ in range(rng.randint(0, 3))])
+    if k == "AGG_LOG":
+        return ("aggr", [("tok", rng.choice([".T.", ".F.", ".U."])) for _ in range(rng.randint(0, 3))])
+    return _orig_gen_value(rng, attr, schema, pool)
+
+
+G.gen_value = _gen_value      # new aggregate kinds only; every kind p21_gen knows is generated as before
 
 
 def fix_derived(schema, pop):
@@ -364,10 +564,26 @@ def violations(rng, schema, pop, per_class=1):
         nv = ("aggr", [("tok", lit) if j == k else x for j, x in enumerate(v[1])])
         out.append(Violation("wrong_kind_in_aggregate", pop[ii].id, replaced(ii, _set_val(pop[ii], pi, ai, nv)),
                              where(pop[ii], pi, ai, a)))
-    # undeclared enumeration item
-    for (ii, pi, ai, a) in positions(lambda a, v, i: a.kind == "ENUM" and v[0] == "tok"):
-        out.append(Violation("bad_enum_item", pop[ii].id, replaced(ii, _set_val(pop[ii], pi, ai, ("tok", ".PURPLE."))),
-                             where(pop[ii], pi, ai, a)))
+    # undeclared enumeration item: near misses of the declared items (prefix, extension, edit, ...), every one its own file
+    ENUM_ITEMS = {"ENUM": ["RED", "GREEN", "BLUE"], "BOOLEAN": ["T", "F"], "LOGICAL": ["T", "F", "U"],
+                  "AGG_ENUM": ["RED", "GREEN", "BLUE"], "AGG_BOOL": ["T", "F"], "AGG_LOG": ["T", "F", "U"]}
+    epos = []
+    for ii, inst in enumerate(pop):
+        for pi, (n, vs) in enumerate(inst.parts):
+            for ai, (a, v) in enumerate(zip(G.part_attrs(schema, inst, pi), vs)):
+                if a.kind in ("ENUM", "BOOLEAN", "LOGICAL") and v[0] == "tok":
+                    epos.append((ii, pi, ai, a, None))
+                elif a.kind in ("AGG_ENUM", "AGG_BOOL", "AGG_LOG") and v[0] == "aggr" and v[1]:
+                    epos.append((ii, pi, ai, a, rng.randrange(len(v[1]))))
+    rng.shuffle(epos)
+    for j, (ii, pi, ai, a, ei) in enumerate(epos[:max(4, 4 * per_class)]):
+        bad = near_miss_enum(rng, ENUM_ITEMS[a.kind], shape=j)       # the shapes in turn: prefix first
+        v = pop[ii].parts[pi][1][ai]
+        nv = ("tok", bad) if ei is None else ("aggr", [("tok", bad) if j == ei else x for j, x in enumerate(v[1])])
+        shape = "prefix" if any(it.startswith(bad.strip(".")) for it in ENUM_ITEMS[a.kind]) else \
+                "extension" if any(bad.strip(".").startswith(it) for it in ENUM_ITEMS[a.kind]) else "other"
+        out.append(Violation("bad_enum_item", pop[ii].id, replaced(ii, _set_val(pop[ii], pi, ai, nv)),
+                             where(pop[ii], pi, ai, a) + ":" + shape))
     # `*` where no attribute is derived
     for (ii, pi, ai, a) in positions(lambda a, v, i: True):
         out.append(Violation("star_not_derived", pop[ii].id, replaced(ii, _set_val(pop[ii], pi, ai, ("derived",))),
